@@ -81,4 +81,17 @@ def codeblock(exporter, node):
     asts = node.get_ast_nodes
     if all(isinstance(a, (F.Where_Construct, F.Where_Stmt)) for a in asts):
         return [where_from_text(str(a)) for a in asts]
+    if len(asts) == 1 and isinstance(asts[0], (F.Exit_Stmt, F.Cycle_Stmt)) \
+            and asts[0].items[1] is not None:
+        # EXIT / CYCLE with a construct name: the PSyIR loops have lost their
+        # names, so the target is only known when there is a single enclosing loop
+        from psyclone.psyir.nodes import Loop, WhileLoop
+        depth, cur = 0, node.parent
+        while cur is not None:
+            if isinstance(cur, (Loop, WhileLoop)):
+                depth += 1
+            cur = cur.parent
+        if depth == 1:
+            return {"k": "exit" if isinstance(asts[0], F.Exit_Stmt) else "cycle"}
+        raise Unsupported("code block: EXIT/CYCLE naming one of several enclosing loops")
     return exporter.codeblock(node)
